@@ -5,7 +5,8 @@ ENGINES = {
         about="Gallina model of Queue.FindEligiblePreemptionVictims / Preemptor / PreemptionContext / QuotaPreemptionContext on generated worlds; potential victim sets, precondition and guarantee checks compared exactly, the committed victim list validated (decision validation) and predicted exactly when creation times are distinct",
         n=dict(quick=450, thorough=1000), shards=dict(quick=1, thorough=8),
         kinds={
-            1: dict(cls="corr", props=["C07", "C08"], what="preemption model and implementation disagree (potential victims, preconditions, guarantee check, outcome or ledger)"),
+            1: dict(cls="corr", props=["C07"], what="model and implementation disagree on who may ask / who may be a victim (preconditions, potential victim sets, required node and quota candidate filters)"),
+            4: dict(cls="corr", props=["C08"], what="model and implementation disagree on what is done with the candidates (guarantee check, chosen victims, preempting ledger, quota shares and timing)"),
             2: dict(cls="oracle", props=["C07"], what="an allocation that is not eligible was preempted, the asker was not allowed to preempt, or a victim was not announced exactly once"),
             3: dict(cls="oracle", props=["C08"], what="preemption without guarantee / victim queue not above its guarantee / victims and free space do not cover the ask / something marked although not committed / quota bound exceeded"),
             5: dict(cls="oracle", props=["C07", "C08"], what="the implementation panicked while preempting"),
